@@ -130,6 +130,7 @@ class SymExec(object):
         self.init_env = init_env or {}
         self.implicit_except = implicit_except
         self.count = 0
+        self._guard = []    # conditions under which the expression being evaluated is reached (IfExp / and / or)
 
     # -- expressions -------------------------------------------------------
     def ev(self, n, st):
@@ -182,6 +183,8 @@ class SymExec(object):
             kws = tuple((kw.arg, E(kw.value)) for kw in n.keywords)
             t = ('call', f, tuple(args), kws)
             st.events.append(('call', t, n))
+            if self._guard:
+                st.data.setdefault('guards', {})[id(n)] = tuple(self._guard)
             if self.on_call is not None:
                 r = self.on_call(st, t, n)
                 if r is not None:
@@ -192,7 +195,15 @@ class SymExec(object):
         if isinstance(n, ast.UnaryOp):
             return ('unop', _UNOPS.get(type(n.op), '?'), E(n.operand))
         if isinstance(n, ast.BoolOp):
-            return ('bool', 'and' if isinstance(n.op, ast.And) else 'or', tuple(E(v) for v in n.values))
+            is_and = isinstance(n.op, ast.And)
+            vals = []
+            depth = len(self._guard)
+            for v in n.values:
+                t = E(v)
+                vals.append(t)
+                self._guard.append((t, is_and))     # later operands run only if this one was truthy (and) / falsy (or)
+            del self._guard[depth:]
+            return ('bool', 'and' if is_and else 'or', tuple(vals))
         if isinstance(n, ast.Compare):
             if len(n.ops) == 1:
                 return ('cmp', _CMPOPS.get(type(n.ops[0]), '?'), E(n.left), E(n.comparators[0]))
@@ -203,7 +214,13 @@ class SymExec(object):
                 left = c
             return ('bool', 'and', tuple(parts))
         if isinstance(n, ast.IfExp):
-            return ('ifexp', E(n.test), E(n.body), E(n.orelse))
+            c = E(n.test)
+            self._guard.append((c, True))
+            a = E(n.body)
+            self._guard[-1] = (c, False)
+            b = E(n.orelse)
+            self._guard.pop()
+            return ('ifexp', c, a, b)
         if isinstance(n, ast.Tuple):
             return ('tuple', tuple(E(x) for x in n.elts))
         if isinstance(n, ast.List):
